@@ -115,17 +115,36 @@ def apply_overlay(am):
             p = os.path.join(root, fn)
             txt = open(p).read()
             new = txt
-            m = re.search(r"^use std::\{([^{}\n]*(?:\{[^{}\n]*\}[^{}\n]*)*)\};$", new, re.M)
-            for m in list(re.finditer(r"^use std::\{(.*)\};$", new, re.M)):
-                items = m.group(1)
-                if "collections::hash_map::Entry" in items and "vmap" not in items:
-                    kept = re.sub(r"collections::hash_map::Entry,?\s*", "", items).rstrip(", ")
-                    rep = "use std::{%s};\n#[cfg(not(kani))]\nuse std::collections::hash_map::Entry;\n#[cfg(kani)]\nuse crate::amv::vmap::Entry;" % kept
-                    new = new.replace(m.group(0), rep)
+            for m in list(re.finditer(r"^use std::\{[^;]*\};", new, re.M)):
+                stmt = m.group(0)  # single- or multi-line `use std::{ .. };`
+                if re.search(r"\bcollections::hash_map::Entry\b", stmt) and "vmap" not in stmt:
+                    kept = re.sub(r"[ \t]*collections::hash_map::Entry,?[ \t]*\n?", "", stmt)
+                    kept = re.sub(r",\s*\};$", "};", kept) if "\n" not in kept else kept
+                    rep = kept + "\n#[cfg(not(kani))]\nuse std::collections::hash_map::Entry;\n#[cfg(kani)]\nuse crate::amv::vmap::Entry;"
+                    new = new.replace(stmt, rep)
             new2 = re.sub(r"^use std::collections::hash_map::Entry;$", "#[cfg(not(kani))]\nuse std::collections::hash_map::Entry;\n#[cfg(kani)]\nuse crate::amv::vmap::Entry;", new, flags=re.M) if "#[cfg(not(kani))]\nuse std::collections::hash_map::Entry;" not in new else new
             if new2 != txt:
                 open(p, "w").write(new2)
                 report["replaced"].append({"name": "generic hash_map::Entry binding", "file": os.path.relpath(p, am)})
+    # 2d. crate-level feature gates needed by harness stubs only (cfg_attr(kani, ..): no effect on any other build)
+    for c in man.get("prepend", []):
+        p = os.path.join(am, c["file"])
+        txt = open(p).read()
+        open(p, "w").write(c["line"] + "\n" + txt)
+        report.setdefault("prepended", []).append({"file": c["file"], "line": c["line"]})
+    # 2c. true Kani function contracts: attribute lines inserted above an anchored signature line
+    for c in man.get("contract", []):
+        p = os.path.join(am, c["file"])
+        lines = open(p).read().split("\n")
+        hits = [i for i, l in enumerate(lines) if l.strip() == c["anchor"].strip()]
+        nth = c.get("nth", 1)
+        if len(hits) < nth:
+            raise ToolError("LOST-ANCHOR contract %s" % c["name"])
+        i = hits[nth - 1]
+        ind = re.match(r"^\s*", lines[i]).group(0)
+        lines[i:i] = [ind + a for a in c["attrs"]]
+        open(p, "w").write("\n".join(lines))
+        report.setdefault("contracts", []).append({"name": c["name"], "file": c["file"], "line": i + 1, "attrs": c["attrs"]})
     # 3. statement slices (verbatim runs of source lines copied into a generated wrapper)
     for s in man.get("slice", []):
         p = os.path.join(am, s["file"])
@@ -198,13 +217,28 @@ def harness_index(am):
             if name in idx:
                 raise ToolError("duplicate harness name " + name)
             idx[name] = qual(mm.start(), name)
-        # instances generated by the `instances! { name => body; .. }` macro of the harness modules
-        for blk in re.finditer(r"instances!\s*\{(.*?)\n\s*\}", txt, re.S):
-            for mm in re.finditer(r"^\s*(\w+)\s*=>", blk.group(1), re.M):
-                name = mm.group(1)
-                if name in idx:
-                    raise ToolError("duplicate harness name " + name)
-                idx[name] = qual(blk.start(), name)
+        # instances generated by the `instances! { name => body; .. }` macros of the harness modules:
+        # names are the `ident =>` entries at brace depth 1 of each invocation block
+        for li, l in enumerate(lines):
+            if not re.match(r"^\s*(?:\w+_)?instances!\s*\{\s*$", l) or l.lstrip().startswith("macro_rules"):
+                continue
+            try:
+                end = extract._match_brace(lines, li)
+            except Exception:
+                continue
+            depth = 0
+            for k in range(li, end + 1):
+                s = lines[k]
+                if depth == 1:
+                    mm = re.match(r"^\s*(\w+)\s*=>", s)
+                    if mm:
+                        name = mm.group(1)
+                        if name in idx:
+                            raise ToolError("duplicate harness name " + name)
+                        idx[name] = qual(offs[k], name)
+                code = re.sub(r'"(?:[^"\\]|\\.)*"', '""', s)
+                code = code.split("//")[0]
+                depth += code.count("{") - code.count("}")
     return idx
 
 
@@ -228,9 +262,7 @@ def expand_harnesses(o, hidx):
 
 def limit_mem(gb):
     def f():
-        os.setsid()
-        if gb:
-            resource.setrlimit(resource.RLIMIT_AS, (gb << 30, gb << 30))
+        os.setsid()  # own process group so that a timeout kills cargo-kani's children too (no RLIMIT_AS: CBMC's virtual size is not its RSS)
     return f
 
 
@@ -300,7 +332,15 @@ def parse_kani_output(out):
 
 
 def kani_group_key(o):
-    return (o["features"], tuple(o["flags"]))
+    return (o["features"], tuple(o["flags"]), o.get("map_cap", 4))
+
+
+def set_map_cap(am, cap):
+    p = os.path.join(am, "src", "amv_h", "vmap.rs")
+    txt = open(p).read()
+    new = re.sub(r"^pub const CAP: usize = \d+;", "pub const CAP: usize = %d;" % cap, txt, flags=re.M)
+    if new != txt:
+        open(p, "w").write(new)
 
 
 def run_kani_group(am, tdir, feats, flags, obs, hidx, jobs, extra=None):
@@ -649,7 +689,8 @@ def main():
         for o in kani_obs:
             groups.setdefault(kani_group_key(o), []).append(o)
         first = True
-        for (feats, flags), gobs in sorted(groups.items(), key=lambda kv: kv[0]):
+        for (feats, flags, cap), gobs in sorted(groups.items(), key=lambda kv: kv[0]):
+            set_map_cap(am, cap)
             tdir = tdir_base + "-" + (hashlib.md5((feats).encode()).hexdigest()[:6])
             run_obs = list(gobs)
             if first:
@@ -708,7 +749,8 @@ def main():
                    "values": None, "native": None, "desc": o.get("desc", "")}
             suffix = " no-failing-input-found"
             if o["backend"] == "kani" and o["replay"] == "values":
-                feats, flags = kani_group_key(o)
+                feats, flags, cap = kani_group_key(o)
+                set_map_cap(am, cap)
                 tdir = tdir_base + "-" + (hashlib.md5((feats).encode()).hexdigest()[:6])
                 fh = r.get("failed_harness") or expand_harnesses(o, hidx)[0]
                 rec["harness"] = fh
